@@ -42,6 +42,10 @@ Proof. exact count_stmts_checked. Qed.
 Theorem C02_count_columns_checked : count_cols_ok all_layouts = true.
 Proof. exact count_cols_checked. Qed.
 
+(* ... and are written through numericField only: storing a count keeps a fitting control record fitting *)
+Theorem C02_count_fields_plain_checked : count_fields_plain all_layouts = true.
+Proof. exact count_fields_plain_checked. Qed.
+
 (* the shape of the tree types the written lines (record-type digits of the regenerated layouts) *)
 Theorem C02_shape_typed : forall f, shape_ok all_layouts f = true -> file_typed (struct_of all_layouts f) = true.
 Proof. exact counts_shape_typed. Qed.
@@ -81,8 +85,8 @@ Print Assumptions C02_create_counts.
 
 (* the same with Create as a function on the tree ([tabulate]: every batch's Create sets the batch control's
    count, File.Create / createFileADV the file control's three; [create_counts_of] = None when createFileADV
-   refuses a file that mixes ADV and other batches): its result is tabulated, so for EVERY tree of the right
-   shape the file written after Create declares what is physically present *)
+   refuses a file that mixes ADV and other batches): its result is tabulated and still fits, so for EVERY
+   fitting tree of the right shape the file written after Create declares what is physically present *)
 Theorem C02_create_tabulates : forall f, adv_only f = true -> tabulatedb (tabulate f) = true.
 Proof. exact counts_tabulated. Qed.
 Print Assumptions C02_create_tabulates.
@@ -90,10 +94,11 @@ Print Assumptions C02_create_tabulates.
 Theorem C02_create_then_write_counts : forall f g,
   create_counts_of f = Some g ->
   shape_ok all_layouts f = true -> adv_no_iat f = true ->
-  all_file (rec_fitsb all_layouts) g = true -> count_boundsb g = true ->
+  all_file (rec_fitsb all_layouts) f = true -> count_boundsb g = true ->
   let ls := write_file_padded all_layouts g in
   let fc := last (write_file all_layouts g) [] in
-  fc_batch_count fc = Z.of_nat (batch_header_lines ls)
+  all_file (rec_fitsb all_layouts) g = true
+  /\ fc_batch_count fc = Z.of_nat (batch_header_lines ls)
   /\ fc_entry_count fc = Z.of_nat (entry_addenda_lines ls)
   /\ (fc_block_count fc * 10)%Z = Z.of_nat (length ls)
   /\ length (batch_segments ls) = length (all_batches f)
